@@ -6,7 +6,7 @@ from acverif.rl import (is_call, peel, peel_all, is_var, is_agg, is_const, self_
                         reachable_without, must_pass, line_of, decision_table, rewrite, expand_vars, atom, cmp_norm, eq_cond,
                         var_defs_terms, is_named_const, strip_convs, inline_closures, param_at, param_of_type, unwrapped,
                         enum_gates, arm_edges, other_edges, result_gates, value_roots, Eval, EvalPanic, Unsupported)
-from acverif.sym import (Sym, summarize, canon, cstr, TooManyPaths, enum_table, teval, row_holds, by_cstr, loop_rows, innermost_loop, strip_old)
+from acverif.sym import (Sym, summarize, canon, cstr, TooManyPaths, enum_table, teval, row_holds, by_cstr, loop_rows, innermost_loop, strip_old, row_consistent)
 
 COMP = "nfa::noncontiguous::Compiler::<'a>::"
 
@@ -596,13 +596,35 @@ def r03_2(cx):
                     except (Unsupported, EvalPanic):
                         oki = False
     cx.report('R03.2', s, 'push-in-order', okp and oki, 'pushes every pid in iteration order to matches[(sid >> stride2) - 2]' if okp and oki else 'set_matches body deviates')
-    flags = [l for l, loc in enumerate(s.locals) if loc['ty'] == 'bool' and loc['names'] and l > s.j['arg_count']]
-
-    def _is_flag(x):
-        return is_var(x) and x[2] in flags
-    g = bool_gates(s, _is_flag)
-
-    oka = bool(g) and all(not any(s.blocks[r]['term']['k'] == 'return' for r in s.reach(tg)) for x in g for _, tg in x[3])
+    # an empty id list is rejected: decided on the loop's summaries -- the one boolean the loop carries has value F0 on arrival, every
+    # iteration that received an id sets it to F1 != F0, and leaving the loop returns only with F1 (F0 panics)
+    from acverif.sym import live_in
+    oka = False
+    hs = list(s.loops())
+    if len(hs) == 1:
+        h = hs[0]
+        fl = [l for l in live_in(cx.facts, s, h) if s.locals[l]['ty'] == 'bool']
+        if len(fl) == 1:
+            fl = fl[0]
+            sym = Sym(cx.facts, s)
+            cur = sym.default_local(fl)
+            arr = [r for r in Sym(cx.facts, s, start=0, stop={h}).rows() if r.end == ('stop', h)]
+            rows = loop_rows(cx.facts, s, h)
+            try:
+                f0 = {teval(r.env.get(fl), lambda t0: None) for r in arr}
+                steps = [r for r in rows if r.end == ('stop', h)]
+                f1 = {teval(r.env.get(fl, cur), lambda t0: None) for r in steps}
+                if len(f0) == 1 and len(f1) == 1 and f0 != f1 and steps:
+                    F0, F1 = list(f0)[0], list(f1)[0]
+                    oka = True
+                    for val, want in ((F0, 'diverge'), (F1, 'return')):
+                        at = lambda t0, val=val: val if repr(t0) == repr(cur) else None
+                        ex = [r for r in rows if r.end != ('stop', h) and row_consistent(r, at)]
+                        ex = [r for r in ex if not any(c[0] == 'discr' and is_call(c[1], r'Iterator::next$') and v == 1 for c, v in r.conds)]
+                        if not ex or any(r.end != want for r in ex):
+                            oka = False
+            except (Unsupported, EvalPanic, KeyError, TypeError):
+                oka = False
     cx.report('R16.4', s, 'non-empty', oka, 'set_matches asserts that a match state has at least one pattern' if oka else 'empty match lists are accepted')
     # contiguous: State::write is called for (oldsid, state) of the same iteration and reads only iter_trans/iter_matches(oldsid)
     w = cx.body('nfa::contiguous::Builder::build_from_noncontiguous')
